@@ -180,12 +180,12 @@ structure M where
   stop : Option Int := none        -- dispatching has to stop; the call must return this value
   deriving Repr
 
-def INT_MAX : Int := 2147483647
-
-/-- `events_network_select`'s conversion of the remaining time (µs) to poll's millisecond timeout:
-    rounded up, saturating -/
-def ceilMs (us : Nat) : Int :=
-  if us / 1000000 ≥ 2147483 then INT_MAX else ((us + 999) / 1000 : Nat)
+/-- the property's "rounded up to a millisecond": the least whole number of milliseconds that is not
+    shorter than `us` microseconds.  This is arithmetic, not a description of the code: there is no
+    upper limit here.  An implementation whose timeout type cannot hold the value (poll takes an `int`)
+    has to wait for less and look again — the monitor allows any shorter wait ("no longer than") —
+    and must not round a long wait *up* to its type's maximum (finding F12, `notes/F12-fix.md`). -/
+def ceilMs (us : Nat) : Int := ((us + 999) / 1000 : Nat)
 
 def minDeadline : List Tm → Option Nat
   | [] => none
@@ -208,6 +208,10 @@ def nextImm : List Imm → Option Imm
     | none => some i
     | some j => if j.prio < i.prio then some j else some i
 
+/-- what the property says about one `poll` call: with something runnable (a pending immediate, an
+    expired timer) it must not block (timeout 0); with a timer registered it must not block
+    indefinitely, nor longer than until the earliest deadline rounded up to a millisecond — for every
+    deadline, however far away.  A shorter wait is always allowed. -/
 def checkPoll (m : M) (timeout : Int) : Except String Unit := do
   if timeout < -1 then throw s!"poll timeout {timeout}"
   if timeout ≠ 0 && runnable m then
